@@ -194,6 +194,17 @@ class FsMixin:
             outs.append((s2, None))
         return outs
 
+    # ---- writable ZooKeeper ghost store (C17): per path existence, owner session (0: not ephemeral), content token
+    ZK_KEYS = {'zk_exists': (('$zk.exists', 0), z3.BoolSort()), 'zk_owner': (('$zk.owner', 0), I),
+               'zk_content': (('$zk.content', 0), I)}
+
+    def zk_spec(self, st, name, args):
+        key, rng = self.ZK_KEYS[name]
+        arr = z3.Select(self.H.get(st.heap, key, z3.ArraySort(z3.StringSort(), rng)), 0)
+        from core import KBool, KAny
+        v = z3.Select(arr, lift(args[0], KStr).z)
+        return SVal({'zk_exists': KBool, 'zk_owner': KInt, 'zk_content': KAny}[name], [v])
+
     def _nm(self, v):
         if isinstance(v, SVal) and v.kind in (KName, KInt):
             return v.z
